@@ -478,8 +478,11 @@ pub fn run_case(case: &Case, cfg: &E2Config, run_seed: u64, decisions: Option<Ve
                         .collect();
                     let x_addon = earlier_group_roots.contains(&root(px));
                     let y_addon = earlier_group_roots.contains(&root(py));
-                    // Without any archetype table brood takes no run-time decisions at all.
-                    if cfg.pop.is_empty() || !(x_addon || y_addon) {
+                    // Without any archetype table brood takes no run-time decisions at all. Two tasks
+                    // that ran in the same fork tree (same stage, or both started early within the
+                    // same earlier stage) are always forked, never run one after the other.
+                    let same_tree = root(px) == root(py);
+                    if cfg.pop.is_empty() || same_tree || !(x_addon || y_addon) {
                         return Err(viol(
                             "C12",
                             "independent-tasks-serialised",
